@@ -99,9 +99,20 @@ def gen_manual(world, b, cfg=None, entropy=0, same_process=False):
     if not same_process:
         world.restart(entropy)
         cfg["process_ends"] = True
+    def shape(x):
+        # a board typed in by hand may be lists, tuples, or a mix: all denote the same board
+        t = b.get("container")
+        if t == "tuple":
+            return tuple(tuple(r) for r in x)
+        if t == "rows_tuple":
+            return [tuple(r) for r in x]
+        if t == "outer_tuple":
+            return tuple(list(r) for r in x)
+        return x
+
     def thunk():
         m = proc.mod("stochastic_game_from_roborta_board")
-        return m.create_sg_from_board(dec(b["moves"]), dec(b["rewards"]), dec(b["loose"]),
+        return m.create_sg_from_board(shape(dec(b["moves"])), shape(dec(b["rewards"])), shape(dec(b["loose"])),
                                       b["rb"], b["lb"], b["tb"])
     return world.run_op(thunk, cfg)
 
